@@ -102,6 +102,9 @@ def variants(cpu, tpl):
         out.append(("set_%x_%x" % (a, b), "\n".join([".%s" % d, ".org 0x20", ".set sv0 = 0x%x" % a, ins("sv0"), lab(0),
                                                       ".set sv0 = 0x%x" % b, ins("sv0"), lab(1)]) + "\n"))
     out.append(("fwd_set_zero", "\n".join([".%s" % d, ".org 0x100", ins("sv0"), lab(0), ".set sv0 = 0", lab(1)]) + "\n"))
+    if cpu == "msp430":
+        # the same programs without the directive (default CPU)
+        out += [(n + "_nodirective", src.split("\n", 1)[1]) for n, src in list(out)]
     return out
 
 
@@ -151,6 +154,8 @@ def render(case):
     cpu, optimize, seg0, seg1, items = case
     bpa = None
     lines = [".%s" % progs.CPU_FILES.get(cpu, cpu)]
+    if cpu == "msp430" and len(items) % 3 == 0:
+        lines = ["; no CPU directive: the MSP430 is the default CPU"]
     cur = None
     for it in items:
         seg = it[-1]
